@@ -12,4 +12,4 @@ ASSUMPTIONS = ['proved: from_dict hands the stored event list to the constructor
 EXPLANATION = 'from_dict attribute restoration (falsy values too) under contract; the origin-time part of every round trip rests on the proved epoch<->datetime contracts (C15); writers/readers (csv, json, pandas, str/float) are exercised by the bounded run-time contract'
 TECHNIQUE = 'bounded stand-in: run-time form of the contracts on the real code (small-scope enumeration + directed cases), labelled bounded, nothing counted as proved; deductive part: contracts of the shared callees'
 LEVEL_TEXT = 'other: from_dict attribute restoration and the time conversions are proved; the file / frame formats are decided by the bounded run-time contract only'
-LEVEL_NOTE = 'bounded only; oracle independence trusted'
+LEVEL_NOTE = 'attribute restoration and time conversions proved; writers / readers bounded only (the CSEP CSV reader itself: C19, proved over an abstract csv file)'
